@@ -22,10 +22,12 @@ class PairAlgebra(Case):
     props = ("C02",)
     func = COMPOUND + ".intersection"
 
-    def __init__(self, na, nb, op, empties=False):
-        self.na, self.nb, self.op, self.empties = na, nb, op, empties
+    def __init__(self, na, nb, op, empties=False, overlap=False):
+        self.na, self.nb, self.op, self.empties, self.overlap = na, nb, op, empties, overlap
         self.tier = "thorough" if na + nb >= 5 else "quick"
-        self.name = f"{op}[{na} x {nb} blocks{', zero-length blocks allowed' if empties else ''}, all coordinates]"
+        self.name = (f"{op}[{na} x {nb} blocks{', zero-length blocks allowed' if empties else ''}"
+                     f"{', blocks of each operand may overlap or nest' if overlap is True else ''}"
+                     f"{', blocks of the second operand may overlap or nest' if overlap == 'b' else ''}, all coordinates]")
         self.call = {"intersection": "a.intersection(b, match_strand=False)",
                      "minus": "a.minus(b, match_strand=False)",
                      "union": "a.union(b)",
@@ -39,6 +41,13 @@ class PairAlgebra(Case):
         if op == "intersection":
             self.ensures = {"position-set": lambda i, r: Iff(covers_pos(r, i.p), And(A(i), B(i))),
                             "normalised": lambda i, r: wf_result(r)}
+            if overlap:
+                # known finding F-C02-5 (consequence of F-C02-2): for operands whose own blocks overlap each other the
+                # pairwise intersections are only merged in overlap-preserving mode, which can leave two ADJACENT
+                # blocks unmerged; sortedness, bounds and length are still required
+                self.ensures["well-formed-up-to-merging"] = lambda i, r: wf_result(r, optimized=False)
+                self.known = {"normalised": dict(id="F-C02-5", carve=lambda i: Or(_self_overlap(i.as_, i.ae),
+                                                                                 _self_overlap(i.bs, i.be)))}
         elif op == "minus":
             self.ensures = {"position-set": lambda i, r: Iff(covers_pos(r, i.p), And(A(i), Not(B(i))))}
         elif op == "union":
@@ -67,14 +76,21 @@ class PairAlgebra(Case):
 
     def inputs(self, S):
         strand = strand_of(S, "strand")
-        a, as_, ae = loc(S, "a", self.na, strand, nonempty=not self.empties)
-        b, bs, be = loc(S, "b", self.nb, strand)
+        a, as_, ae = loc(S, "a", self.na, strand, nonempty=not self.empties, allow_overlap=self.overlap is True)
+        b, bs, be = loc(S, "b", self.nb, strand, allow_overlap=bool(self.overlap))
         return NS(a=a, b=b, as_=as_, ae=ae, bs=bs, be=be, p=S.int("p"))
 
     def samples(self, rng):
         d = sample_blocks(rng, "a", self.na, length=(0, 1, 2, 4) if self.empties else (1, 2, 4))
         d.update(sample_blocks(rng, "b", self.nb, length=(1, 2, 4, 9)))
         d.update(strand=rng.choice(["PLUS", "MINUS"]), p=rng.randint(0, 14))
+        if self.overlap:
+            for nm, n in (("a", self.na), ("b", self.nb)):
+                if nm == "a" and self.overlap == "b":
+                    continue
+                if n >= 2 and rng.random() < 0.7:  # stretch the first block over (part of) the later ones
+                    d[nm + "_ends"][0] = d[nm + "_ends"][rng.randrange(1, n)] + rng.choice([-1, 0, 1])
+                    d[nm + "_ends"][0] = max(d[nm + "_ends"][0], d[nm + "_starts"][0] + 1)
         return d
 
     def observe(self, r):
@@ -82,6 +98,12 @@ class PairAlgebra(Case):
         if class_name(r) in ("_EmptyLocation", "SingleInterval", "CompoundInterval"):
             return obs_loc(r)[:2]
         return o(r)
+
+
+def _self_overlap(starts, ends):
+    """two blocks of one operand share a position (blocks non-empty)."""
+    n = len(starts)
+    return Or(False, *[Max(starts[a], starts[b]) < Min(ends[a], ends[b]) for a in range(n) for b in range(a + 1, n)])
 
 
 def _exists_common(i):
@@ -349,6 +371,14 @@ CASES = [PairAlgebra(na, nb, op) for op in ("intersection", "minus", "union", "h
          for na, nb in ((2, 1), (1, 2), (2, 2), (3, 2))]
 CASES += [PairAlgebra(na, nb, op) for op in ("has_overlap_full_span", "intersection_full_span")
           for na, nb in ((2, 1), (1, 2), (2, 2))]
+# operands whose own blocks overlap or nest (difference and containment are not claimed for them: C02 quantifier)
+CASES += [PairAlgebra(na, nb, op, overlap=True) for op in ("intersection", "union", "has_overlap")
+          for na, nb in ((1, 3), (2, 2))]
+CASES[-3].shard_depth = 6  # union 2 x 2 overlapping: ~1000 paths
+# compound x compound with a hit - miss - hit pattern in the second operand's (start-sorted, nested) blocks
+CASES += [PairAlgebra(2, 3, "intersection", overlap="b")]
+CASES[-1].shard_depth = 6
+CASES[-1].tier = "quick"
 CASES += [PairAlgebra(na, nb, "distance_inner") for na, nb in ((2, 2), (3, 2))]
 CASES[-1].tier = "quick"
 CASES += [CompoundIntervalForm(2), CompoundIntervalForm(3), CompoundIntervalForm(4)]
